@@ -44,6 +44,8 @@ func init() {
 	register(srvFamily("C01", "c01", 1, GenC01, c01Online,
 		func(w *SrvWorld) *Violation { return c01Final(w, "C01") },
 		func(w *SrvWorld, r *RunResult) { r.Nontrivial = c01Nontrivial(w) }))
+	register(srvFamily("C06", "c06", 1, GenC06, c06Online, c06Final,
+		func(w *SrvWorld, r *RunResult) { r.Nontrivial = c06Nontrivial(w) }))
 }
 
 // Replay is the on-disk form of one run.
@@ -183,6 +185,24 @@ func TestWorker(t *testing.T) {
 	}
 	enc := json.NewEncoder(out)
 	start := time.Now()
+	if in := os.Getenv("VERIF_SHRINK"); in != "" {
+		b, err := os.ReadFile(in)
+		if err != nil {
+			t.Fatal(err)
+		}
+		rp := &Replay{}
+		if err := json.Unmarshal(b, rp); err != nil {
+			t.Fatal(err)
+		}
+		what.Store("shrink " + in)
+		small, attempts := Shrink(t, rp, time.Duration(envInt("VERIF_SHRINK_S", 60))*time.Second, envInt("VERIF_SHRINK_ATTEMPTS", 600))
+		ob, _ := json.MarshalIndent(small, "", " ")
+		if err := os.WriteFile(os.Getenv("VERIF_SHRINK_OUT"), ob, 0o644); err != nil {
+			t.Fatal(err)
+		}
+		fmt.Fprintf(out, "{\"shrink_attempts\":%d,\"tape_before\":%d,\"tape_after\":%d}\n", attempts, len(rp.Tape), len(small.Tape))
+		return
+	}
 	if rpPath := os.Getenv("VERIF_REPLAY"); rpPath != "" {
 		b, err := os.ReadFile(rpPath)
 		if err != nil {
@@ -197,7 +217,9 @@ func TestWorker(t *testing.T) {
 		enc.Encode(res)
 		return
 	}
-	for run := from; run < to && time.Since(start) < budget; run++ {
+	sampled := false
+	stride := envInt("VERIF_STRIDE", 1)
+	for run := from; run < to && time.Since(start) < budget; run += stride {
 		what.Store(fmt.Sprintf("%s seed=%d run=%d", prop, seed, run))
 		res, plan, fam := oneRun(t, prop, seed, run, nil)
 		keepTrace := res.Viol != nil || res.Stuck != "" || os.Getenv("VERIF_TRACE") != ""
@@ -216,6 +238,15 @@ func TestWorker(t *testing.T) {
 				b, _ := json.MarshalIndent(rp, "", " ")
 				os.WriteFile(name, b, 0o644)
 			}
+		}
+		if os.Getenv("VERIF_SAMPLE") != "" && !sampled && res.Nontrivial && res.Viol == nil {
+			sampled = true
+			pb, _ := json.Marshal(plan)
+			tr := res.Trace
+			if len(tr) > 80 {
+				tr = tr[:80]
+			}
+			res.Sample = &Sample{PlanRaw: json.RawMessage(pb), Trace: tr, Summary: res.Summary}
 		}
 		if !keepTrace {
 			res.Trace = nil
